@@ -861,6 +861,17 @@ add_flush_events(uint64_t t0, uint64_t t1)
 {
 	struct ovni_ev pre = {0}, post = {0};
 
+	/* Both flush events must fit in the buffer together: if adding one of
+	 * them caused another flush, the flush events would end up nested and
+	 * with decreasing clocks. This can only happen when a large jumbo
+	 * event has been placed just after the flush. In that case flush
+	 * again, so they fit, and take the end time afterwards. */
+	if (rthread.evlen + sizeof(pre.header) + sizeof(post.header)
+			>= OVNI_MAX_EV_BUF) {
+		flush_evbuf();
+		t1 = ovni_clock_now();
+	}
+
 	pre.header.clock = t0;
 	ovni_ev_set_mcv(&pre, "OF[");
 
